@@ -218,6 +218,23 @@ pub fn stage_binary(bin: &Path, tag: &str) -> Result<PathBuf, String> {
     Ok(dest)
 }
 
+/// Removes scratch directories left behind by runner processes that no longer exist (killed by a time limit, ...).
+pub fn remove_stale_scratch() {
+    let Ok(rd) = std::fs::read_dir(scratch_base()) else { return };
+    for e in rd.flatten() {
+        let name = e.file_name().to_string_lossy().into_owned();
+        if !name.starts_with("verif-") {
+            continue;
+        }
+        // the creating process' id is one of the numeric components (small numbers are counters, not pids)
+        let pids: Vec<i32> = name.split('-').filter_map(|c| c.parse::<i32>().ok()).filter(|p| *p > 300).collect();
+        let alive = pids.iter().any(|p| unsafe { libc::kill(*p, 0) == 0 || *libc::__errno_location() == libc::EPERM });
+        if !alive {
+            remove_run_dir(&e.path());
+        }
+    }
+}
+
 pub fn unstage_binaries() {
     let prefix = format!("verif-bin-{}-", std::process::id());
     if let Ok(rd) = std::fs::read_dir(scratch_base()) {
